@@ -90,15 +90,16 @@ def build(u):
                 u.take_fn(el, "write_event", external_body=True)
     with u.mod("key_keeper"):
         with u.mod("key", uses="use std::collections::HashMap;"):
-            u.take(key, "Key", "struct", extra_attrs="#[verifier::external_body]")
+            u.take(key, "Key", "struct")
             u.take(key, "Privilege", "struct")
             u.take(key, "Identity", "struct")
     with u.mod("shared_state"):
-        with u.mod("key_keeper_wrapper", uses="use crate::common::result::Result;\nuse crate::proxy::authorization_rules::ComputedAuthorizationItem;"):
+        with u.mod("key_keeper_wrapper", uses="use crate::common::result::Result;\nuse crate::proxy::authorization_rules::ComputedAuthorizationItem;\nuse crate::key_keeper::key::Key;"):
             u.placeholder_ext(kkw, ["KeyKeeperSharedState"], "vx_ph_kkw")
             with u.impl_(kkw, "KeyKeeperSharedState"):
-                for f in ("get_current_key_value", "get_current_key_guid"):
-                    u.take_fn(kkw, "KeyKeeperSharedState::" + f, external_body=True)
+                for f in ("get_current_key", "get_current_key_value", "get_current_key_guid"):
+                    if kkw.has_item("KeyKeeperSharedState::" + f):
+                        u.take_fn(kkw, "KeyKeeperSharedState::" + f, external_body=True)
         with u.mod("agent_status_wrapper", uses="use crate::common::result::Result;\nuse crate::proxy::proxy_summary::ProxySummary;"):
             u.placeholder_ext(asw, ["AgentStatusSharedState"], "vx_ph_asw")
             with u.impl_(asw, "AgentStatusSharedState"):
